@@ -88,6 +88,23 @@ def run(rep, tier, seed, model_ok):
                       {"kind": "scenario", "scenario": {"name": "large+unreadable"}})
     if "Failed to read file" not in o.out:
         rep.violation("the unreadable file was not reported", {"kind": "scenario", "scenario": {"name": "large+unreadable"}})
+    # (b2) small files of ordinary shape with many comment openers inside string literals and line comments
+    #      (glob tables, URL lists): they must be done in no time -- not only scale well
+    globs = "const PATTERNS: &[&str] = &[\n" + "".join('    "dir%d/*.%s",\n' % (i, rng.choice(["rs", "md", "toml"])) for i in range(80)) + "];\n"
+    urls = "const URLS: &[&str] = &[\n" + "".join('    "https://example.com/%d",\n' % i for i in range(200)) + "];\n"
+    notes = "".join("// see src/*.rs and docs/*.md (%d)\n" % i for i in range(100))
+    for nme, text in (("globs", globs), ("urls", urls), ("notes", notes), ("all", globs + urls + notes)):
+        b = (text + 'fn f() { info!("after the table"); }\n').encode()
+        for mode in ("check", "edit"):
+            s = h2.Scenario([("t.rs", b)], mode, name="ordinary/" + nme)
+            t1 = time.time()
+            o = h2.run_impl(s, timeout=30)
+            rep.count(("ordinary", nme, mode), nontrivial=True)
+            if o.timed_out or h2.exit_class(o) not in ("OK", "ERR"):
+                rep.violation("a %d-byte file of ordinary shape (%s) is not finished within 30 s in %s mode: %s" % (
+                    len(b), nme, mode, "timeout" if o.timed_out else h2.exit_class(o)),
+                    {"kind": "scenario", "scenario": s.to_json()})
+        dist["ordinary_" + nme] = len(b)
     # (c) scaling
     sizes = (20000, 80000) if quick else (50000, 400000)
     scaling = {}
